@@ -122,6 +122,12 @@ Fixpoint handle (v : variant) (s : nat) (st : state) (reqs : list req)
           else (head ++ up ++ [rm; Write r status (w0 + se) (r_close q) 1; Unlink r],
                 st' false, rest, if r_close q then RClose else RNil)      (* 525-584 *)
       | ConnectBlind =>
+          (* p.connect: [Dial r] is the one dial it performs in either branch: the
+             target itself, or the configured downstream proxy, to which it then
+             writes the CONNECT request and whose answer it reads with
+             http.ReadResponse(pbr, req), i.e. res.Request is req.  A dial or read
+             failure is the 502 path; handleConnectRequest never re-assigns
+             res.Request, so "same request" rests on connect() in both branches. *)
           if rt_fails q
           then                                                 (* 374-396 *)
               let rm := ResMod r true c s 502 1 L in
